@@ -115,6 +115,7 @@ func newWorldAt(kind, dir, name string, reopen bool) (*World, error) {
 	w.scopes["c0"] = [2]string{"_default", "_default"}
 	w.scopes["c1"] = [2]string{"s1", "a"}
 	w.scopes["c2"] = [2]string{"s1", "b"}
+	w.scopes["c3"] = [2]string{"s1", "c"} // not created until a program asks for it (mkcoll)
 	for _, c := range []string{"c0", "c1", "c2"} {
 		if _, err := w.openColl(c, "h0"); err != nil {
 			return nil, err
@@ -319,6 +320,11 @@ func mutateOpts(l Line) *sgbucket.MutateInOptions {
 
 // exec runs one protocol line against the implementation and returns its canonical result text.
 func (w *World) exec(l Line) (res string) {
+	defer func() {
+		if strings.Contains(res, "FOREIGN_KEY_constraint_failed") {
+			res = "r=dropped" // a write through the object of a dropped collection
+		}
+	}()
 	defer func() {
 		if r := recover(); r != nil {
 			msg := fmt.Sprint(r)
@@ -803,6 +809,11 @@ func (w *World) execUpdate(c *rosmar.Collection, key string, exp uint32, l Line)
 			return []byte(step[4:]), nil, false, nil
 		case step == "del":
 			return nil, nil, true, nil
+		case strings.HasPrefix(step, "setifnil:"):
+			if current == nil {
+				return []byte(step[9:]), nil, false, nil
+			}
+			return nil, nil, false, nil
 		case strings.HasPrefix(step, "delif:"):
 			if string(current) == step[6:] {
 				return nil, nil, true, nil
